@@ -663,7 +663,8 @@ class Dataset(AbstractDataset, dict, OpMixin, GetSetDelAttrMixin):
             indices = self.axes[axis].loc(indices, mode=mode)
         if mode not in ('raise', 'clip', 'wrap'):
             mode = 'raise'
-        return self.reduce_axis(np.take, indices=indices, axis=axis, mode=mode, keepattrs=True, keepdims=True)
+        newaxis = self.axes[axis].take(indices, mode=mode) # keep the axis metadata, like DimArray.take_axis
+        return self.reduce_axis(np.take, indices=indices, axis=axis, mode=mode, keepattrs=True, keepdims=True, newaxis=newaxis)
 
     def sort_axis(self, axis=0, kind='quicksort'):
         """Analogous to DimArray.sort_axis, for each element in a Dataset
